@@ -423,7 +423,7 @@ func checkC12(c *Ctx) {
 			}
 		}
 	}
-	c.Rule = fmt.Sprintf("every decode path (%d byte prefixes incl. all 65536 (d,op) pairs after DDCB/FDCB) x %d operand byte patterns x %d configurations (memory kind {64K array, DumbMemory len 0/1/256/32768, MapMemory} / IO kind {nil, DumbIO len 0/1/128/256} / IM {0,1,2,-1,3,MaxInt} / PC {0000,0100,FFFC..FFFF} / SP / pending request {none, NMI, unknown types, IM1, IM2, mode-0 data of 1..4 bytes and 70000 bytes} one at a time around a default, thorough: pairs); all 256 single-byte opcodes and multi-byte forms as mode-0 data x IM x IFF1 x PC x memory kind; mode-0 data of 5/8/300 bytes starting with each of the 256 opcodes with every pointer register aimed into and around [PC, PC+len); Run on a halting program with every request kind pending x IM x IFF1; Run vs Step-driven twin on every decode path as a one-instruction program in HALT-filled memory (at 0100, FFC0 and FFFA, with and without a non-empty BreakPoints map). the real DumbMemory (6 lengths) and MapMemory passed to the CPU unwrapped x every decode path x operand patterns x 4 PCs x 7 SPs; memories filled with a single prefix/opcode byte; an embedder re-pointing CPU.Memory/CPU.IO from inside the callback at access 0..4 of the Step x all 256 first bytes x 4 tails, from memory and as mode-0 data; Oracle: no panic, deterministic watchdog (4096 accesses per Step), unsupported opcodes only consumed. Non-trivial = the configuration deviates from the default in memory/IO/IM/request or the path is an unsupported or prefix-only encoding (counted).", len(paths), len(operandPats), len(cfgs))
+	c.Rule = fmt.Sprintf("every decode path (%d byte prefixes incl. all 65536 (d,op) pairs after DDCB/FDCB) x %d operand byte patterns x %d configurations (memory kind {64K array, DumbMemory len 0/1/256/32768, MapMemory} / IO kind {nil, DumbIO len 0/1/128/256} / IM {0,1,2,-1,3,MaxInt} / PC {0000,0100,FFFC..FFFF} / SP / pending request {none, NMI, unknown types, IM1, IM2, mode-0 data of 1..4 bytes and 70000 bytes} one at a time around a default, thorough: pairs); all 256 single-byte opcodes and multi-byte forms as mode-0 data x IM x IFF1 x PC x memory kind; mode-0 data of 5/8/300 bytes starting with each of the 256 opcodes with every pointer register aimed into and around [PC, PC+len); Run on a halting program with every request kind pending x IM x IFF1; Run vs Step-driven twin on every decode path as a one-instruction program in HALT-filled memory (at 0100, FFC0 and FFFA, with and without a non-empty BreakPoints map). the real DumbMemory (6 lengths) and MapMemory passed to the CPU unwrapped x every decode path x operand patterns x 4 PCs x 7 SPs; memories filled with a single prefix/opcode byte; one CPU value stepped through the whole decode tree twice (every supported and unsupported encoding on the same object); an embedder re-pointing CPU.Memory/CPU.IO from inside the callback at access 0..4 of the Step x all 256 first bytes x 4 tails, from memory and as mode-0 data; Oracle: no panic, deterministic watchdog (4096 accesses per Step), unsupported opcodes only consumed. Non-trivial = the configuration deviates from the default in memory/IO/IM/request or the path is an unsupported or prefix-only encoding (counted).", len(paths), len(operandPats), len(cfgs))
 	c.Bound = "decode tree x configuration lattice " + c.Tier
 	var evals, nontriv [16 * 8]int64
 	var capped int32
@@ -536,6 +536,48 @@ func checkC12(c *Ctx) {
 				}
 			}
 		}
+	}
+	// ONE CPU value for the whole decode tree: a machine that lives long meets every encoding, supported or
+	// not, on the same CPU object; whatever the CPU accumulates over its lifetime (a warning de-duplication
+	// set, a decode cache, counters) must not make a later Step panic. Twice over, the second time by Run.
+	{
+		flat := &fastMem{}
+		cm := &countMem{m: flat, limit: 1 << 62}
+		cpu := z80.CPU{Memory: cm, IO: make(z80.DumbIO, 256)}
+		var nl int64
+		for pass := 0; pass < 2; pass++ {
+			for pi := range paths {
+				p := paths[pi]
+				for i, b := range p.bytes {
+					flat.b[0x0100+i] = b
+				}
+				flat.b[0x0100+len(p.bytes)] = 0x76
+				flat.b[0x0100+len(p.bytes)+1] = 0x76
+				cpu.PC, cpu.SP, cpu.IM, cpu.HALT = 0x0100, 0x8000, 1, false
+				cpu.Interrupt = nil
+				cm.n, cm.written = 0, cm.written[:0]
+				cm.limit = cm.n + 4096
+				var pan interface{}
+				func() {
+					defer func() { pan = recover() }()
+					cpu.Step()
+					cpu.Step()
+				}()
+				nl++
+				for _, a := range cm.written {
+					flat.b[a] = 0
+				}
+				for i := 0; i < len(p.bytes)+2; i++ {
+					flat.b[0x0100+i] = 0
+				}
+				if pan != nil {
+					c.Report("c12/longlived:"+encName(p.bytes), nl, "", map[string]interface{}{"bytes": hexBytes(p.bytes), "encodings_executed_before_on_this_cpu": nl - 1}, []string{fmt.Sprintf("one CPU value stepping through the whole decode tree: after %d earlier encodings, Step on % X panicked: %v", nl-1, p.bytes, pan)})
+					break
+				}
+			}
+		}
+		n += nl
+		c.Set("long_lived_cpu_steps", nl)
 	}
 	// an embedder that switches banks by re-pointing CPU.Memory (and CPU.IO) from inside a device callback, at
 	// the k-th access of the Step: which object serves the remaining accesses is nobody's promise, but the
